@@ -21,13 +21,22 @@ ClockDrift = DashOption(
     cgi_type='<seconds>',
     cgi_choices=(None, '10'))
 
+UTC_METHODS: tuple[str, ...] = ('direct', 'head', 'http-ntp', 'iso', 'ntp', 'sntp', 'xsd')
+
+def utc_method_from_string(value: str) -> str | None:
+    value = DashOption.string_or_none(value)
+    if value is not None and value not in UTC_METHODS:
+        raise ValueError(f'Unknown time method: "{value}"')
+    return value
+
+
 UTCMethod = DashOption(
     usage=OptionUsage.MANIFEST,
     short_name='utc',
     full_name='utcMethod',
     title='UTC timing method',
     description='Select UTCTiming element method.',
-    from_string=DashOption.string_or_none,
+    from_string=utc_method_from_string,
     input_type='select',
     cgi_name='time',
     cgi_choices=(None, 'direct', 'head', 'http-ntp', 'iso', 'ntp', 'sntp', 'xsd'),
